@@ -4,6 +4,7 @@ import json
 import math
 import os
 import struct
+from fractions import Fraction
 
 from .. import core
 from . import c17_reach
@@ -139,6 +140,34 @@ def brute_window(ttype, tol, x, ys):
     return [j for j, y in enumerate(ys) if lo <= y <= hi]
 
 
+def frac(x):
+    f = Fraction(x)
+    return f'{f.numerator}/{f.denominator}'
+
+
+def gen_round_case(rng):
+    """a rational to round: sums / differences / products / quotients of doubles as score.py forms them, exact ties between two
+    neighbouring doubles (both parities), values one part in 2^60 off a tie, small integers, negatives; all in the normal range"""
+    k = rng.choice(['op', 'op', 'tie', 'neartie', 'int', 'frac'])
+    if k == 'op':
+        a = Fraction(rng.choice([rng.uniform(0, 2000), 0.25 * rng.randint(0, 4000), rng.uniform(0, 1)]))
+        b = Fraction(rng.choice([rng.uniform(0, 50), 0.1, 1e6, 20.0, rng.uniform(0, 1e6)]))
+        op = rng.choice('+-*/')
+        if op == '/' and b == 0:
+            b = Fraction(1000000)
+        return a + b if op == '+' else a - b if op == '-' else a * b if op == '*' else a / b
+    if k in ('tie', 'neartie'):
+        m = rng.randint(2 ** 52, 2 ** 53 - 1)
+        e = rng.randint(-80, 40)
+        q = Fraction(2 * m + 1, 2) * Fraction(2) ** e
+        if k == 'neartie':
+            q += rng.choice([-1, 1]) * Fraction(2) ** (e - 8)
+        return q * rng.choice([1, -1])
+    if k == 'int':
+        return Fraction(rng.choice([0, 1, -1, 3, 2 ** 53, 2 ** 53 + 1, 2 ** 53 + 3, -(2 ** 54 + 2), rng.randint(-10 ** 20, 10 ** 20)]))
+    return Fraction(rng.randint(-10 ** 6, 10 ** 6), rng.randint(1, 10 ** 6))
+
+
 def make_fragment(fragmentation, mz, k, charge=1, ion='b', start=0, end=1, isotope=0, loss=0.0, seq='PEPTIDE'):
     return fragmentation.Fragment(charge=charge, ion_type=ion, start=start, end=end, monoisotopic=True, isotope=isotope,
                                   loss=loss, parent_sequence=seq, mass=mz * max(charge, 1), neutral_mass=mz, mz=mz,
@@ -153,7 +182,7 @@ def run(chk):
     # score.py -> Generated/ScoreCorePy.lean + Props/C17Gen.lean (equalities with the hand model), regenerated on change
     from .. import translate_scorecore
     gen_done, gen_unt = translate_scorecore.translate(chk)
-    chk.lean_build(['PeptVerif.Props.C17', 'PeptVerif.Props.C17Gen'], DRV)
+    chk.lean_build(['PeptVerif.Props.C17', 'PeptVerif.Props.C17Gen', 'PeptVerif.Props.C17Ext'], DRV)
     chk.trusted += [
         'harness/translate_scorecore.py: the reading of the Python subset (names, 1e6 and 0, + - * /, the tolerance-type conditional, '
         'abs of a difference, comparisons, indexes[0]/[1], fragments[i], list(range), a comprehension over range reading one list at the '
@@ -164,10 +193,19 @@ def run(chk):
         'get_fragment_matches at the level of (fragment position, m/z) and (m/z, intensity) lists, get_match_coverage on '
         '(fragment key, charge, ion type, start, end), get_matched_intensity_percentage',
         'not modelled: Fragment / FragmentMatch property plumbing, binomial_score (its float formula is compared with an '
-        'independent evaluation by the oracle only), filter_* helpers; Python 3.12 sum() is compensated, so intensity '
+        'independent evaluation by the oracle only); the two isotope filters are modelled on (label string, isotope) pairs '
+        '(Model/ScoreFilter.lean; Fragment.label itself is not modelled); Python 3.12 sum() is compensated, so intensity '
         'fractions are compared with relative tolerance 1e-12 instead of bit-exactly',
-        'theorems are stated over a linear order / Rat; IEEE rounding of the window bounds is covered by correspondence and '
-        'the oracle only',
+        'theorems of Props/C17 are stated over a linear order / exact Rat. IEEE rounding of the window bounds: Props/C17Ext proves, for '
+        'the same generic model run at Rat with every + - * / followed by an ABSTRACT rounding function rnd, sandwich theorems '
+        '(every peak with exact distance <= E - S is matched, every matched peak has exact distance <= E + S; E = tol resp. '
+        'mz*tol/1e6, S = u(|mz|+|tol|) resp. u|mz| + 4u|E|) from two hypotheses on rnd: monotone, and |rnd z - z| <= u|z|. TRUSTED, '
+        'not proved: CPython float + - * / (IEEE binary64 round-to-nearest-even) satisfies both with u = 2^-53 when no operation '
+        'overflows or yields a subnormal. Exercised: the model at Rat with the concrete rounding Score.rnd53 (53-bit significand, '
+        'ties to even, unbounded exponent) against the real get_matched_indices (stage get_matched_indices_rounded_rat_model), '
+        'rnd53 against float(Fraction) (stage rnd53_vs_cpython), and the sandwich itself on the real code with exact fractions '
+        '(oracle rounded_window_sandwich). For ppm the theorem assumes the rounded lower bound monotone along the fragments '
+        '(fails only in the region of the known finding); the oracle evaluates that hypothesis on the float bounds',
     ]
     chk.rule = ('lists of length 0..30 on a 0.25 grid (ties, overlapping windows), off-grid with injected ties, and with peaks '
                 'exactly on / one ulp inside / one ulp outside the computed bounds; tolerance type ppm|th, tolerance 0 .. > range; '
@@ -201,6 +239,26 @@ def run(chk):
             return exc_name(e)
 
     chk.correspond('get_matched_indices', DRV, cases + bad_tt, gmi_line, gmi_impl,
+                   nontrivial_fn=lambda c, im: ':' in im)
+
+    # ---------------------------------------------------------------- (a') the model at Rat with rounded arithmetic (Props/C17Ext)
+    # rnd53 (Model/ScoreRnd.lean) against CPython's correctly rounded int/int division
+    NR = 1500 if tier == 'quick' else 20000
+    r_cases = [gen_round_case(rng) for _ in range(NR)]
+
+    def r_impl(q):
+        f = Fraction(float(q))
+        return f'{f.numerator}/{f.denominator}'
+
+    chk.correspond('rnd53_vs_cpython', DRV, r_cases, lambda q: f'rnd53\t{q.numerator}/{q.denominator}', r_impl,
+                   nontrivial_fn=lambda q, im: Fraction(im) != q)
+    # the generic model of get_matched_indices at Rat, every operation followed by rnd53, against the real code on doubles
+    rr_cases = cases[: NR] + cases[N: N + NR // 4]
+
+    def gmir_line(c):
+        return f'gmir\t{c[0]}\t{frac(c[1])}\t{",".join(frac(x) for x in c[2])}\t{",".join(frac(y) for y in c[3])}'
+
+    chk.correspond('get_matched_indices_rounded_rat_model', DRV, rr_cases, gmir_line, gmi_impl,
                    nontrivial_fn=lambda c, im: ':' in im)
 
     # ---------------------------------------------------------------- (b) match_spectra
@@ -356,7 +414,6 @@ def run(chk):
     chk.correspond('get_match_coverage', DRV, cov_cases, cov_line, cov_impl, nontrivial_fn=lambda c, im: '1' in im)
 
     # the same on real Fragment objects (Model/ScoreFrag.lean: FragmentMatch records, key = the tuple of the code)
-    from fractions import Fraction
     covf_cases = []
     for _ in range(N // 20):
         seq = ''.join(rng.choice('ACDEFGHIKLMNPQRSTVWY') for _ in range(rng.randint(1, 8)))
@@ -387,6 +444,37 @@ def run(chk):
     chk.correspond('get_match_coverage_on_fragments', DRV, covf_cases, covf_line, covf_impl,
                    nontrivial_fn=lambda c, im: '1' in im or '2' in im)
 
+    # ---------------------------------------------------------------- (e) the isotope filters (Model/ScoreFilter.lean)
+    flt_cases = []
+    for _ in range(N // 20):
+        seq = ''.join(rng.choice('ACDEFGHIKLMNPQRSTVWY') for _ in range(rng.randint(1, 6)))
+        frs = pt.fragment(seq, rng.sample(['a', 'b', 'c', 'x', 'y', 'z', 'by', 'i'], rng.randint(1, 2)), rng.sample([1, 2], rng.randint(1, 2)),
+                          isotopes=rng.choice([[0, 1], [0, 1, 2], [0, 1, 2, 3], [1, 2], [0, 2]]), water_loss=rng.random() < 0.3)
+        if not frs:
+            continue
+        keep = rng.choice([0.3, 0.6, 0.9])
+        picks = [f for f in frs if rng.random() < keep]
+        if rng.random() < 0.3:
+            picks = picks + picks[: rng.randint(0, len(picks))]
+        if rng.random() < 0.5:
+            rng.shuffle(picks)
+        flt_cases.append([score.FragmentMatch(f, f.mz, 1.0) for f in picks])
+    flt_cases.append([])
+
+    def flt_line(op):
+        return lambda ms: f'{op}\t' + ';'.join(f'{m.label}:{m.isotope}' for m in ms)
+
+    def flt_impl(fn):
+        def go(ms):
+            pos = {id(m): k for k, m in enumerate(ms)}
+            return ','.join(str(pos[id(m)]) for m in fn(list(ms)))
+        return go
+
+    chk.correspond('filter_missing_mono_isotope', DRV, flt_cases, flt_line('fmm'), flt_impl(score.filter_missing_mono_isotope),
+                   nontrivial_fn=lambda c, im: 0 < len(im.split(',')) < len(c) and im != '')
+    chk.correspond('filter_skipped_isotopes', DRV, flt_cases, flt_line('fsi'), flt_impl(score.filter_skipped_isotopes),
+                   nontrivial_fn=lambda c, im: 0 < len(im.split(',')) < len(c) and im != '')
+
     # ---------------------------------------------------------------- oracles: the property on the real code
     budget = 1 if not chk.broken() else 4
     on = N * budget
@@ -410,6 +498,10 @@ def run(chk):
     for part in ('pairs', 'fraction', 'coverage'):
         chk.oracle('fragment_matches_' + part, fcases, lambda c, part=part: prop_fragments(pt, score, c, chk.rng, part),
                    nontrivial_fn=lambda c: len(c['mz']) > 0, key_fn=lambda c: json.dumps(c, sort_keys=True))
+    # Props/C17Ext on the real code: exact distances (fractions) against the sandwich of getMatchedIndices_rounded_th / _ppm
+    sw_cases = ocases[: (1000 if tier == 'quick' else 12000) * budget]
+    chk.oracle('rounded_window_sandwich', sw_cases, lambda c: prop_sandwich(score, c, chk),
+               nontrivial_fn=lambda c: bool(c[2]) and bool(c[3]), key_fn=lambda c: repr(c))
     chk.oracle('binomial_score_counts', ocases[:: 5], lambda c: prop_binomial(score, c),
                nontrivial_fn=lambda c: bool(c[2]) and bool(c[3]), key_fn=lambda c: repr(c))
 
@@ -450,7 +542,8 @@ def run(chk):
     shrink_sequence_failures(chk)
     c17_reach.record(chk, reach)
     if tier == 'thorough':
-        chk.leanchecker(['PeptVerif.Props.C17', 'PeptVerif.Props.C17Gen', 'PeptVerif.Generated.ScoreCorePy', 'PeptVerif.Lemmas.ScoreGen',
+        chk.leanchecker(['PeptVerif.Props.C17Ext', 'PeptVerif.Model.ScoreFilter', 'PeptVerif.Lemmas.ScoreRnd', 'PeptVerif.Spec.ScoreRnd', 'PeptVerif.Model.ScoreRnd',
+                         'PeptVerif.Props.C17', 'PeptVerif.Props.C17Gen', 'PeptVerif.Generated.ScoreCorePy', 'PeptVerif.Lemmas.ScoreGen',
                          'PeptVerif.Lemmas.Score', 'PeptVerif.Model.Score', 'PeptVerif.Spec.Score'])
     return chk.finish(classify)
 
@@ -475,6 +568,52 @@ def prop_window(score, c, spec=None):
     for i, (g, r) in enumerate(zip(allm, ref)):
         if (g or []) != r or (g is not None and not g) or (g is None) != (not r):
             return f"match_spectra mode all: fragment {i} (mz {xs[i]!r}) -> {g}, peaks within tolerance are {r}"
+    return None
+
+
+U53 = Fraction(1, 2 ** 53)
+
+
+def prop_sandwich(score, c, chk=None):
+    """Props/C17Ext (getMatchedIndices_rounded_th / _ppm with u = 2^-53) on the real implementation, exact arithmetic on the
+    values of the doubles: peak j with |y - x| <= E - S must be reported for fragment i, a reported peak has |y - x| <= E + S.
+    ppm: only when the float lower bound is monotone along the fragments (hypothesis of the theorem)."""
+    ttype, tol, xs, ys = c[0], c[1], list(c[2]), list(c[3])
+    if any(xs[i] > xs[i + 1] for i in range(len(xs) - 1)) or any(ys[i] > ys[i + 1] for i in range(len(ys) - 1)):
+        return None
+    if ttype == 'ppm':
+        los = [float_lo(c, x) for x in xs]
+        if any(los[i] > los[i + 1] for i in range(len(los) - 1)):
+            if chk is not None:
+                chk.count('sandwich_skipped_lower_bound_not_monotone')
+            return None
+    got = score.get_matched_indices(xs, ys, tol, ttype)
+    ft = Fraction(tol)
+    fys = [Fraction(y) for y in ys]
+    gap = 0
+    for i, x in enumerate(xs):
+        fx = Fraction(x)
+        if ttype == 'th':
+            e = ft
+            s = U53 * (abs(fx) + abs(ft))
+        else:
+            e = fx * ft / 1000000
+            s = U53 * abs(fx) + 4 * U53 * abs(e)
+        inner, outer = e - s, e + s
+        w = got[i]
+        for j, fy in enumerate(fys):
+            d = abs(fy - fx)
+            rep = w is not None and w[0] <= j < w[1]
+            if d <= inner and not rep:
+                return (f'fragment {i} ({x!r}), peak {j} ({ys[j]!r}): exact distance {float(d)!r} <= E - S = {float(inner)!r} '
+                        f'but the peak is not reported ({w})')
+            if rep and d > outer:
+                return (f'fragment {i} ({x!r}), peak {j} ({ys[j]!r}) is reported ({w}) but its exact distance {float(d)!r} '
+                        f'> E + S = {float(outer)!r}')
+            if inner < d <= outer:
+                gap += 1
+    if chk is not None and gap:
+        chk.count('sandwich_pairs_in_the_undetermined_band', gap)
     return None
 
 
@@ -786,6 +925,8 @@ def eval_failure(obj):
             return prop_fragments(pt, score, c, random.Random(0), o[len('fragment_matches_'):])
         if o == 'binomial_score_counts':
             return prop_binomial(score, c)
+        if o == 'rounded_window_sandwich':
+            return prop_sandwich(score, c)
         if o == 'call_sequences':
             return prop_sequence(pt, score, c)
         if o.startswith('reissued_'):
